@@ -137,7 +137,7 @@ def _work_http(job):
                 na, _ = rd.count_gates(tmpl, opa)
             finally:
                 tmpl.close()
-            for i in range(0, na + 1, job["stride"]):
+            for i in range(0, min(na, job.get("maxi", na)) + 1, job["stride"]):
                 out.append(httprace.run_http_schedule(opa, opb, [("A", i), ("B", None)]))
         return {"ok": True, "runs": out}
     except Exception:
@@ -176,6 +176,42 @@ def model_race_classes(kind, timeout=1500):
         common.machinery_failure("TLC on StoreProtoMC (race, %s) failed:\n%s" % (kind, res["out"][-3000:]))
     return {"kind": kind, "design_linearizable": not violated, "states": res["states"],
             "distinct": res["distinct"]}
+
+
+def conditional_overlap(rep, tier, seed):
+    """Used by C03: two HTTP requests to a real server, at least one conditional, the second one
+    running to completion while the first is parked at one of its first file-system steps (so
+    also between the handler's evaluation of If-Match and the store's own check).  A conditional
+    request that is executed although the resource no longer has a listed etag - and that is not
+    one of the listed race classes of C05 - is a violation of C03."""
+    devs = common.open_devs("Lin")
+    P = lambda n, b, c: {"t": "put", "n": n, "b": b, "cond": c}      # noqa: E731
+    D = lambda c: {"t": "del", "n": "a", "b": 0, "cond": c}          # noqa: E731
+    pairs = [(P("a", 3, 1), P("a", 2, 1)), (P("a", 3, 1), P("a", 2, 0)), (P("a", 2, 1), D(0)),
+             (D(1), P("a", 2, 0)), (P("a", 3, 1), D(1)), (D(1), P("a", 3, 1))]
+    if tier != "quick":
+        pairs = pairs + [(b, a) for (a, b) in pairs]
+    # the first request is parked at its first (or second) file-system step: after the handler
+    # looked at the headers, before the store evaluates the condition itself under its lock
+    hjobs = [{"pairs": [p], "stride": 1, "maxi": 1} for p in pairs]
+    with multiprocessing.get_context("fork").Pool(12) as pool:
+        outs = pool.map(_work_http, hjobs, chunksize=1)
+    runs = []
+    for o in outs:
+        if not o["ok"]:
+            common.machinery_failure("harness exception:\n" + o["error"])
+        runs.extend(o["runs"])
+    for i, r in enumerate(runs):
+        r["id"] = i + 1
+    verdicts, _ = judge(runs, devs)
+    for r in runs:
+        v = verdicts[r["id"]]
+        if v["k"] == "viol":
+            rep.violation("%s: overlapping requests through HTTP: %s ops=%s results=%s final=%s plan=%s" % (
+                v["dev"], v["clause"], json.dumps(r["ops"]), json.dumps(r["res"]), json.dumps(r["final"]),
+                json.dumps(r["plan"])), {"property": rep.prop, "verdict": v, "run": r})
+    rep.coverage["conditional_overlap_runs"] = len(runs)
+    return len(runs)
 
 
 def reader_overlap(rep, tier, seed):
